@@ -1262,7 +1262,7 @@ FORCED_HELPERS = ("join_rec_with_parens_around_types", "rec_with_parens_around_t
                   "rec_with_force_parens_around")
 
 
-def _forced_types(P, f):
+def _forced_types(P, f, _depth=0):
     """Operand classes a printer handler puts in parentheses regardless of
     precedence: {class short name}, or None if the handler forces none.
     Recognised: pymbolic's *_with_parens_around_types helpers (the tuple of
@@ -1304,6 +1304,32 @@ def _forced_types(P, f):
                 and isinstance(x.func.value, ast.Call) and dotted(x.func.value.func) == "super" \
                 and x.func.attr == f.name:
             return "super"
+        # a helper of the class that wraps operands of the types it is handed
+        if isinstance(x, ast.Call) and isinstance(x.func, ast.Attribute) \
+                and isinstance(x.func.value, ast.Name) and x.func.value.id == "self" \
+                and f.cls is not None and x.func.attr not in FORCED_HELPERS and _depth < 2:
+            h = None
+            for k in [f.cls] + [c_ for c_ in P.subclasses(f.cls)]:
+                h = h or P.method(k, x.func.attr)
+            if h is None or h.module.trusted or h is f:
+                continue
+            params = h.params[1:] if h.params and h.params[0] == "self" else h.params
+            tparams = set()
+            for t_ in ast.walk(h.node):
+                if isinstance(t_, ast.If) and any(
+                        isinstance(y, ast.Constant) and isinstance(y.value, str) and "(" in y.value
+                        and ")" in y.value for b in t_.body for y in ast.walk(b)):
+                    for y in ast.walk(t_.test):
+                        if isinstance(y, ast.Call) and dotted(y.func) == "isinstance" and len(y.args) == 2 \
+                                and isinstance(y.args[1], ast.Name) and y.args[1].id in params:
+                            tparams.add(y.args[1].id)
+            for tp in tparams:
+                i_ = params.index(tp)
+                arg = x.args[i_] if i_ < len(x.args) else next(
+                    (k_.value for k_ in x.keywords if k_.arg == tp), None)
+                if arg is not None:
+                    found = True
+                    out |= names_of(arg)
     return out if found else None
 
 
@@ -1337,10 +1363,45 @@ def forced_parens_rule(run, P, rule, cls_fq):
                    why="'a*(b/c)' printed as 'a*b/c' is '(a*b)/c' in the target language: a "
                        "different rounding, an overflow for large operands and another value "
                        "for integer or remainder operands")
+    # the grouping of a nested sum / product is part of its floating-point value
+    for hname, own in (("map_sum", "Sum"), ("map_product", "Product")):
+        f = P.method(C, hname)
+        have = _forced_types(P, f) if f is not None and not f.module.trusted else None
+        ok = isinstance(have, set) and own in have
+        n += 1
+        run.ob(rule, f if f is not None and not f.module.trusted else C, None, ok,
+               construct=f"{C.name}.{hname} puts a nested {own} operand in parentheses "
+                         f"(forces: {sorted(have) if isinstance(have, set) else have})",
+               why="'a + (b + c)' printed as 'a + b + c' is evaluated left to right by the "
+                   "target while the interpreter evaluates the tree: with 0.1, 0.2, 0.3 one is "
+                   "0.6 and the other 0.6000000000000001, and a guard '> 0.6' goes two ways")
     return n
 
 
+def _sum_order(run, P):
+    """The interpreter adds the terms of a sum one after the other, like the code
+    both generators print."""
+    EM = P.cls("dagrt.expression.EvaluationMapper")
+    f = P.method(EM, "map_sum")
+    if f is None:
+        raise AnalysisError("EvaluationMapper.map_sum not resolved")
+    uses_sum = any(isinstance(x, ast.Call) and isinstance(x.func, ast.Name) and x.func.id in ("sum", "fsum")
+                   or (isinstance(x, ast.Call) and (dotted(x.func) or "").endswith(("math.fsum", "np.sum",
+                                                                                     "numpy.sum")))
+                   for x in ast.walk(f.node))
+    folds = any(isinstance(x, ast.Call) and dotted(x.func) in ("reduce", "functools.reduce") and x.args
+                and dotted(x.args[0]) in ("operator.add", "add") for x in ast.walk(f.node)) \
+        or any(isinstance(x, (ast.AugAssign, ast.BinOp)) and isinstance(x.op, ast.Add) for x in ast.walk(f.node))
+    run.ob("C01.prec", f, f.node, folds and not uses_sum,
+           construct=f"EvaluationMapper.map_sum (from {f.cls.name}) folds the terms with '+', left to "
+                     f"right (uses built-in sum(): {uses_sum})",
+           why="from Python 3.12 on the built-in sum() adds floats with compensated summation: "
+               "sum((0.1, 0.2, 0.3)) is 0.6 while 0.1 + 0.2 + 0.3, which is what generated code "
+               "computes, is 0.6000000000000001")
+
+
 def _prec(run, P):
+    run.do(_sum_order, run, P)
     forced_parens_rule(run, P, "C01.prec", "dagrt.codegen.expressions.PythonExpressionMapper")
     consts = prec_constants(P)
     f = P.func("dagrt.codegen.expressions.PythonExpressionMapper.map_if")
